@@ -265,5 +265,79 @@ def task_com_mode_and_elements(ctx):
     ctx.undecided_clause("absence of NaN/inf in floating point for accepted inputs; division-by-zero / sqrt-of-negative safety conditions on valid inputs")
 
 
-TASKS_QUICK = ["species_order", "electron_count", "solver_combinations", "excited_state_guards", "com_mode_and_elements"]
+def task_definedness(ctx):
+    """Finite-result clause, closed-form layers: on valid inputs (interatomic distance > 0, additive terms > 0, real charge
+    separations, positive (ss|ss)) every division has a non-zero divisor and every square root a non-negative radicand in
+    (a) the 22/4/1 local-frame two-centre integrals and the core-electron attraction integrals, (b) the core-core repulsion of
+    MNDO/AM1/PM3, (c) the pair geometry of Parser.forward (unit vectors).  Definedness condition = pyvc.expr.defined of the
+    expression the real routine returns."""
+    from contracts import C06_nddo_model as C06
+    from contracts import C19_additivity_cutoff as C19
+
+    fn = ctx.under_contract(C06.TGT_LF)
+    ni, nj, a, tore = C06._lf_inputs()
+    ex = ctx.explore(lambda: fn(ni, nj, a["r0"], tore, a["da0"], a["db0"], a["qa0"], a["qb0"], a["rho0a"], a["rho0b"], a["rho1a"], a["rho1b"], a["rho2a"], a["rho2b"], "AM1"), name="local_frame")
+    if len(ex.paths) != 1 or ex.paths[0].raised is not None:
+        ctx.error("local_frame.paths", "%r" % ([p.raised for p in ex.paths],))
+    else:
+        outs = ex.paths[0].value
+        n_nontrivial = 0
+        for p_, kind in enumerate(("XX", "XH", "HH")):
+            pre = [a["r0"].a[p_] > 0] + [a[k].a[p_] > 0 for k in ("rho0a", "rho0b", "rho1a", "rho1b", "rho2a", "rho2b")]
+            group = {"XX": (outs[2], outs[5]), "XH": (outs[1], outs[4]), "HH": (outs[0], outs[3])}[kind]
+            for gname, t in zip(("ri", "core"), group):
+                flat = t.a[0].reshape(-1) if t.a.ndim > 1 else t.a.reshape(-1)[:1]
+                for k, v in enumerate(flat):
+                    if not isinstance(v, Sym):
+                        continue
+                    d = E.defined(v.n)
+                    if d is not E.TRUE:
+                        n_nontrivial += 1
+                    ctx.prove("local-frame.%s.%s[%d]-is-defined-for-r>0-and-positive-additive-terms" % (kind, gname, k), d, pc=pre)
+        if n_nontrivial < 20:
+            ctx.error("local_frame.vacuous", "only %d non-trivial definedness conditions" % n_nontrivial)
+    # (b) core-core
+    fnp = ctx.under_contract("seqm.seqm_functions.energy:pair_nuclear_energy")
+    for method, ng in (("MNDO", 0), ("AM1", 4), ("PM3", 2)):
+        Z, idxi, idxj, ni2, nj2, const, alpha, K, L, M, rij, gam = C06._pair_setup(max(ng, 1))
+        pars = (alpha,) if method == "MNDO" else (alpha, K, L, M)
+        ex = ctx.explore(lambda: fnp(None, const, 1, ni2, nj2, st.tensor(idxi), st.tensor(idxj), rij, None, None, None, None, gam=gam, method=method, parameters=pars),
+                         constants={"a0": real("a0"), "ev": real("ev")}, name="pair_nuclear_energy " + method)
+        if len(ex.paths) != 1 or ex.paths[0].raised is not None:
+            ctx.error(method + ".paths", "%r" % ([p.raised for p in ex.paths],))
+            continue
+        En = ex.paths[0].value
+        for k in range(5):
+            ctx.prove("core-core.%s.pair%d-is-defined-for-r>0" % (method, k), E.defined(En.a[k].n), pc=[rij.a[k] > 0, real("a0") > 0, real("ev") > 0])
+    # (c) Parser geometry
+    fnq = ctx.under_contract(BAS + ":Parser.forward")
+    species = [[8, 1, 1], [1, 1, 0]]
+
+    def thunk():
+        ps = C19.make_parser(Fraction(10) ** 10)
+        mol = C19.parser_molecule(species)
+        return mol, fnq(ps, mol, "AM1")
+
+    ex = ctx.explore(thunk, name="Parser.forward", max_paths=64)
+    for p in ex.paths:
+        if p.raised is not None:
+            continue
+        mol, out = p.value
+        xij, rij = out[15], out[16]
+        idxi, idxj = [int(v) for v in out[13].a], [int(v) for v in out[14].a]
+        flat = [(m, i) for m in range(2) for i in range(3) if species[m][i] > 0]
+        x = mol.coordinates
+        for k in range(len(idxi)):
+            (m, i), (_, j) = flat[idxi[k]], flat[idxj[k]]
+            d2 = sum((x.a[m, j, c] - x.a[m, i, c]) ** 2 for c in range(3))
+            pre = list(p.pc) + [d2 > 0, real("lcf") > 0]
+            for c in range(3):
+                ctx.prove("parser@p%d.unit-vector[%d,%d]-is-defined-for-distinct-atoms" % (p.path_id, k, c), E.defined(xij.a[k, c].n), pc=pre)
+            ctx.prove("parser@p%d.distance[%d]-is-defined" % (p.path_id, k), E.defined(rij.a[k].n), pc=pre)
+    ctx.canary("definedness-needs-the-precondition", E.defined((1 / real("r")).n))
+    ctx.assume_note("A1: finite = defined (no overflow); valid input: distinct atoms (r > 0), positive additive terms rho0/rho1/rho2 (their own computation, cal_par, is not covered), positive unit constants")
+    ctx.undecided_clause("definedness of the additive-term solvers (cal_par), of the overlap integrals and of the SCF iteration; NaN produced by LAPACK")
+
+
+TASKS_QUICK = ["species_order", "electron_count", "solver_combinations", "excited_state_guards", "com_mode_and_elements", "definedness"]
 TASKS_THOROUGH = TASKS_QUICK
